@@ -327,3 +327,101 @@ class G:
                         rec(x, ctxS, folS, in_look)
             rec(r["expr"], False, fol[name], False)
         return out
+
+
+# --------------------------------------------------------------------------
+# PEG matcher for lexical (atomic) rules: no implicit whitespace between sequence items
+# --------------------------------------------------------------------------
+BUILTINS = {
+    "ANY": lambda c: True,
+    "ASCII_DIGIT": lambda c: "0" <= c <= "9",
+    "ASCII_NONZERO_DIGIT": lambda c: "1" <= c <= "9",
+    "ASCII_BIN_DIGIT": lambda c: c in "01",
+    "ASCII_OCT_DIGIT": lambda c: "0" <= c <= "7",
+    "ASCII_HEX_DIGIT": lambda c: c in "0123456789abcdefABCDEF",
+    "ASCII_ALPHA_LOWER": lambda c: "a" <= c <= "z",
+    "ASCII_ALPHA_UPPER": lambda c: "A" <= c <= "Z",
+    "ASCII_ALPHA": lambda c: ("a" <= c <= "z") or ("A" <= c <= "Z"),
+    "ASCII_ALPHANUMERIC": lambda c: ("a" <= c <= "z") or ("A" <= c <= "Z") or ("0" <= c <= "9"),
+    "ASCII": lambda c: ord(c) < 128,
+}
+
+
+class Unsupported(Exception):
+    pass
+
+
+class Matcher:
+    """PEG semantics (ordered choice, greedy possessive repetition, predicates) of the grammar's expressions, for rules used
+    atomically. `match(rule, s)` is True when the rule consumes the whole of s."""
+
+    def __init__(self, rules):
+        self.rules = rules
+
+    def match(self, rule, s):
+        return self.run({"k": "ident", "v": rule}, s, 0, 0) == len(s)
+
+    def prefix(self, rule, s):
+        """length of the prefix the rule consumes, or None"""
+        return self.run({"k": "ident", "v": rule}, s, 0, 0)
+
+    def run(self, e, s, i, depth):
+        if depth > 200:
+            raise Unsupported("expression nesting")
+        k = e["k"]
+        if k == "str":
+            return i + len(e["v"]) if s.startswith(e["v"], i) else None
+        if k == "insens":
+            v = e["v"]
+            return i + len(v) if s[i:i + len(v)].lower() == v.lower() else None
+        if k == "range":
+            return i + 1 if i < len(s) and e["a"] <= s[i] <= e["b"] else None
+        if k == "ident":
+            n = e["v"]
+            if n in self.rules:
+                return self.run(self.rules[n]["expr"], s, i, depth + 1)
+            if n in BUILTINS:
+                return i + 1 if i < len(s) and BUILTINS[n](s[i]) else None
+            if n == "SOI":
+                return i if i == 0 else None
+            if n == "EOI":
+                return i if i == len(s) else None
+            if n == "NEWLINE":
+                for nl in ("\r\n", "\n", "\r"):
+                    if s.startswith(nl, i):
+                        return i + len(nl)
+                return None
+            raise Unsupported("rule %s" % n)
+        if k == "seq":
+            for x in e["e"]:
+                i = self.run(x, s, i, depth + 1)
+                if i is None:
+                    return None
+            return i
+        if k == "choice":
+            for x in e["e"]:
+                r = self.run(x, s, i, depth + 1)
+                if r is not None:
+                    return r
+            return None
+        if k == "opt":
+            r = self.run(e["e"], s, i, depth + 1)
+            return i if r is None else r
+        if k in ("rep", "rep1", "repn"):
+            lo = 1 if k == "rep1" else (e.get("min", 0) if k == "repn" else 0)
+            hi = e.get("max") if k == "repn" else None
+            n = 0
+            while hi is None or n < hi:
+                r = self.run(e["e"], s, i, depth + 1)
+                if r is None or (r == i and n >= lo):
+                    break
+                i = r
+                n += 1
+                if r == i and n > len(s) + 1:
+                    break
+            return i if n >= lo else None
+        if k == "neg":
+            return i if self.run(e["e"], s, i, depth + 1) is None else None
+        if k == "pos":
+            return i if self.run(e["e"], s, i, depth + 1) is not None else None
+        raise Unsupported("expression kind %s" % k)
